@@ -1,6 +1,7 @@
 package checks
 
 import (
+	"bufio"
 	"bytes"
 	"encoding/json"
 	"fmt"
@@ -107,7 +108,7 @@ func (r *zeroInterleavedReader) Read(p []byte) (int, error) {
 	return n, nil
 }
 
-var c06Readers = []string{"buffer", "onebyte", "halves", "eof-with-data", "zero-interleaved", "chunk-1000"}
+var c06Readers = []string{"buffer", "onebyte", "halves", "eof-with-data", "zero-interleaved", "chunk-1000", "reused-buffer", "bytes-reader", "bufio-reader"}
 
 func mkReader(kind string, b []byte) io.Reader {
 	b = append([]byte{}, b...)
@@ -126,6 +127,10 @@ func mkReader(kind string, b []byte) io.Reader {
 		return &eofWithDataReader{b}
 	case "zero-interleaved":
 		return &zeroInterleavedReader{b: b}
+	case "bytes-reader":
+		return bytes.NewReader(b)
+	case "bufio-reader":
+		return bufio.NewReaderSize(bytes.NewReader(b), 16)
 	}
 	return bytes.NewBuffer(b)
 }
@@ -178,11 +183,17 @@ func c06Exec(c *fw.Ctx, cas c06Case) {
 		}
 		ctr = cas.Start
 	}
+	var reused bytes.Buffer // "reused-buffer": the writer keeps ONE buffer for the session, writes each message into it and hands it to Encrypt
 	for i, n := range cas.Lens {
 		msg := fill(n, cas.Fill, byte(17*i+3))
 		var ct []byte
 		if p := guard(func() {
-			r, e := enc.Encrypt(mkReader(cas.Reader, msg))
+			src := mkReader(cas.Reader, msg)
+			if cas.Reader == "reused-buffer" {
+				reused.Write(msg)
+				src = &reused
+			}
+			r, e := enc.Encrypt(src)
 			if e != nil {
 				err = e
 				return
@@ -407,13 +418,14 @@ func c06Run(c *fw.Ctx) {
 	seqLens := []int{0, 1, 1023, 1024, 1025, 2048, 2049}
 	for _, a := range seqLens {
 		for _, b := range seqLens {
-			for _, rd := range []string{"buffer", "halves"} {
+			for _, rd := range []string{"buffer", "halves", "reused-buffer", "bytes-reader", "bufio-reader"} {
 				do(c06Case{Secret: 0, Lens: []int{a, b}, Fill: "pattern", Reader: rd, Dir: "a2c"}, false)
 			}
 			do(c06Case{Secret: 0, Lens: []int{a, b}, Fill: "pattern", Dir: "c2a"}, true)
 			for _, d := range seqLens {
 				do(c06Case{Secret: 0, Lens: []int{a, b, d}, Fill: "pattern", Reader: "buffer", Dir: "a2c"}, false)
 				do(c06Case{Secret: 0, Lens: []int{a, b, d}, Fill: "pattern", Reader: "buffer", Dir: "c2a"}, false)
+				do(c06Case{Secret: 0, Lens: []int{a, b, d}, Fill: "pattern", Reader: "reused-buffer", Dir: "c2a"}, false)
 				do(c06Case{Secret: 0, Lens: []int{a, b, d}, Fill: "pattern", Dir: "c2a"}, true)
 			}
 		}
@@ -450,7 +462,7 @@ func init() {
 	fw.Register(&fw.Check{
 		ID:     "C06",
 		Level:  "exploration",
-		Rule:   "exhaustive enumeration of payload lengths 0..4097 (plus 8191,8192,8193,65535,65536,65537) × 6 source-reader behaviours (buffer, one byte per Read, halves, 1000-byte chunks, data together with EOF, zero-length reads interleaved) × directions, contents {pattern, zero, 0xFF} × 3 secrets on a length grid, all message sequences of length 2–3 over 7 boundary lengths, a 302-message counter run; every sequence of 2–3 messages over 6 lengths with all frames in ONE reader (pipelined peer), drained by repeated Decrypt calls, from a buffer and one byte per Read, produced by hc and by the reference; frame counters preset (reflection) to 2^32−2, 2^32, 2^32+1, 2^40, 2^63−1, 2^63, 2^64−5; each executed on hc's real sessions and compared byte-for-byte with the reference framing, then decrypted by hc's opposite end, and reference ciphertext decrypted by hc. distinct_nontrivial = distinct (direction, reader, frame count) classes Plus, in a subprocess built with a scheduling point before EVERY statement of hc's packages (textual insertion through go build -overlay): every interleaving with at most 1 (thorough 2) preemptions of pairs of operations on disjoint objects — and, where the property is about served requests, of pairs of handlers on two verified connections of one accessory touching different characteristics — each side must observe exactly what it observes when the two run one after the other (module-level mutable state is what makes them differ).",
+		Rule:   "exhaustive enumeration of payload lengths 0..4097 (plus 8191,8192,8193,65535,65536,65537) × 9 source readers (a fresh bytes.Buffer, one byte per Read, halves, 1000-byte chunks, data together with EOF, zero-length reads interleaved, ONE bytes.Buffer kept for the session and refilled per message, bytes.Reader, bufio.Reader) × directions, contents {pattern, zero, 0xFF} × 3 secrets on a length grid, all message sequences of length 2–3 over 7 boundary lengths, a 302-message counter run; every sequence of 2–3 messages over 6 lengths with all frames in ONE reader (pipelined peer), drained by repeated Decrypt calls, from a buffer and one byte per Read, produced by hc and by the reference; frame counters preset (reflection) to 2^32−2, 2^32, 2^32+1, 2^40, 2^63−1, 2^63, 2^64−5; each executed on hc's real sessions and compared byte-for-byte with the reference framing, then decrypted by hc's opposite end, and reference ciphertext decrypted by hc. distinct_nontrivial = distinct (direction, reader, frame count) classes Plus, in a subprocess built with a scheduling point before EVERY statement of hc's packages (textual insertion through go build -overlay): every interleaving with at most 1 (thorough 2) preemptions of pairs of operations on disjoint objects — and, where the property is about served requests, of pairs of handlers on two verified connections of one accessory touching different characteristics — each side must observe exactly what it observes when the two run one after the other (module-level mutable state is what makes them differ).",
 		Run:    c06Run,
 		Budget: func(string) time.Duration { return 20 * time.Minute },
 		Replay: func(c *fw.Ctx, raw json.RawMessage) {
